@@ -242,6 +242,13 @@ def panic_sites(prog, chk, reach):
         if why is None:
             fp = strip_closures(body.path)
             ent = allow.get((fp, s.kind, s.what)) or allow.get((fp, s.kind, s.decl)) or allow.get((fp, s.kind, ""))
+            if ent is None or ent["used"] >= ent["count"]:
+                # a function that did not exist at review time: the lines reviewed for the functions it was split off from
+                for op_ in sorted(prog.owners_of(body.path)):
+                    e2 = allow.get((op_, s.kind, s.what)) or allow.get((op_, s.kind, s.decl)) or allow.get((op_, s.kind, ""))
+                    if e2 is not None and e2["used"] < e2["count"]:
+                        ent = e2
+                        break
             if ent is not None and ent["used"] < ent["count"]:
                 ent["used"] += 1
                 why = "D6 reviewed: " + ent["reason"]
